@@ -329,6 +329,105 @@ def reader_config():
     return term
 
 
+def _mkdir_of(call, var):
+    """exist_ok flag if call is os.makedirs(var, ...) / os.mkdir(var), else None."""
+    if isinstance(call, ast.Call) and dotted(call.func) in ("os.makedirs", "os.mkdir", "makedirs") and call.args \
+            and unparse(call.args[0]) == var:
+        ok = False
+        for k in call.keywords:
+            if k.arg == "exist_ok":
+                if not isinstance(k.value, ast.Constant):
+                    raise Declined(f"exist_ok is not a literal: {unparse(call)}")
+                ok = bool(k.value.value)
+        if len(call.args) >= 3 and isinstance(call.args[2], ast.Constant):
+            ok = bool(call.args[2].value)
+        return ok
+    return None
+
+
+def _dir_ops(stmts, var, stop_at=None):
+    """Directory-creation ops on `var` in source order; stops at the first statement containing a call for which
+    stop_at(call) holds (returned as second component)."""
+    ops = []
+    for st in stmts:
+        if stop_at:
+            for n in ast.walk(st):
+                if isinstance(n, ast.Call) and stop_at(n):
+                    return ops, n
+        if isinstance(st, ast.If) and unparse(st.test) in (f"not os.path.exists({var})", f"not os.path.isdir({var})") \
+                and not st.orelse:
+            inner = [_mkdir_of(b.value, var) for b in st.body if isinstance(b, ast.Expr)]
+            if any(x is not None for x in inner):
+                ops.append("TMkdirIfAbsent D")
+                continue
+        if isinstance(st, ast.If) and unparse(st.test) == f"{var} is None":
+            # the directory is given by the caller: the else branch is the one taken
+            sub, hit = _dir_ops(st.orelse, var, stop_at)
+            ops += sub
+            if hit is not None:
+                return ops, hit
+            continue
+        if isinstance(st, ast.Expr) and _mkdir_of(st.value, var) is not None:
+            ops.append(f"TMkdir D {'true' if _mkdir_of(st.value, var) else 'false'}")
+            continue
+        if isinstance(st, ast.Try) and len(st.body) == 1 and isinstance(st.body[0], ast.Expr) \
+                and _mkdir_of(st.body[0].value, var) is not None:
+            caught = [x for h in st.handlers for x in _exn_list(h.type)] if all(h.type is not None for h in st.handlers) else ["OSE"]
+            swallowed = all(all(isinstance(b, ast.Pass) or is_logging(b) for b in h.body) for h in st.handlers)
+            names = [unparse(h.type) for h in st.handlers if h.type is not None]
+            if swallowed and (any("FileExistsError" in n or "OSError" in n or "Exception" in n for n in names) or not names):
+                ops.append("TMkdir D true")
+                continue
+            raise Declined(f"try around makedirs({var}) without a rule")
+        for n in ast.walk(st):
+            if isinstance(n, ast.Call) and _mkdir_of(n, var) is not None:
+                raise Declined(f"makedirs({var}) in a statement without a rule: {unparse(st)[:80]}")
+    return ops, None
+
+
+EXN.setdefault("FileExistsError", ["OSE"])
+
+
+def _flowmodel_train_ops():
+    mod, _ = parse("nessai/flowmodel/base.py")
+    fn = find_function(mod, "train", cls="FlowModel")
+    if "output" not in [a.arg for a in fn.args.args + fn.args.kwonlyargs]:
+        raise Declined("FlowModel.train has no output parameter")
+    src = unparse(fn)
+    if "current_weights_file = os.path.join(output, 'model.pt')" not in src \
+            or "self.save_weights(current_weights_file)" not in src:
+        raise Declined("FlowModel.train no longer saves <output>/model.pt through save_weights")
+    ops, _ = _dir_ops(strip_doc(fn.body), "output")
+    return ops
+
+
+def training_ops(which):
+    """Op list (directories + weights file) of one training: which = 'ins' (ImportanceFlowProposal.train, one
+    directory per level) or 'std' (FlowProposal.train, one directory per block when training data / plots
+    are kept).  -> Coq term of type trainer; uses the regenerated writers sk_save_w_ins / sk_save_w."""
+    if which == "ins":
+        mod, _ = parse("nessai/proposal/importance.py")
+        fn = find_function(mod, "train", cls="ImportanceFlowProposal")
+        var, writer = "level_output", "sk_save_w_ins"
+        if "level_output = os.path.join(output, f'level_{self.level_count}', '')" not in unparse(fn):
+            raise Declined("level_output is no longer <output>/level_<level_count>/")
+    else:
+        mod, _ = parse("nessai/proposal/flowproposal.py")
+        fn = find_function(mod, "train", cls="FlowProposal")
+        var, writer = "block_output", "sk_save_w"
+        if "block_output = os.path.join(self.output, 'training', f'block_{self.training_count}', '')" not in unparse(fn):
+            raise Declined("block_output is no longer <output>/training/block_<training_count>/")
+
+    def is_flow_train(c):
+        return dotted(c.func) == "self.flow.train" and any(k.arg == "output" and unparse(k.value) == var for k in c.keywords)
+    ops, call = _dir_ops(strip_doc(fn.body), var, stop_at=is_flow_train)
+    if call is None:
+        raise Declined(f"self.flow.train(..., output={var}) not found")
+    ops += _flowmodel_train_ops()
+    lst = "[" + "; ".join(ops) + "]"
+    return f"(fun (D : dname) (F : fname) (NEW : payload) => {lst} ++ map TFile ({writer} F NEW))"
+
+
 def resume_holder():
     """Which file the RESUMED sampler checkpoints to: where sampler.resume_file comes from after a resume.
     -> Coq term of type rholder."""
@@ -368,7 +467,8 @@ def resume_holder():
 
 if __name__ == "__main__":
     for f in (lambda: safe_file_dump(True), lambda: safe_file_dump(False), flowmodel_save_weights,
-              importance_save_weights, checkpoint_call, reader_config, resume_holder):
+              importance_save_weights, checkpoint_call, reader_config, resume_holder,
+              lambda: training_ops('ins'), lambda: training_ops('std')):
         try:
             print(f())
         except Declined as e:
